@@ -163,6 +163,39 @@ fn skipped_default_cases(ctx: &mut Ctx) {
 	}
 }
 
+/// Tuples of several kilobytes behind holders (candidates for in-place decoding): a later field
+/// fails, panics or is missing after earlier ones were constructed.
+fn big_tuple_cases(ctx: &mut Ctx) {
+	type Big = (Tracked, [u8; 5000], Tracked, Tracked);
+	type Big2 = ([u64; 600], Tracked, (Tracked, Tracked), u8);
+	for (what, tail, ok) in [("third field malformed", vec![0xffu8, 3], false), ("third field panics", vec![0xfe, 3], false), ("fourth field missing", vec![2u8], false), ("fourth field malformed", vec![2u8, 0xff], false), ("complete", vec![2u8, 3], true)] {
+		let mut bs = vec![1u8];
+		bs.extend(std::iter::repeat(9u8).take(5000));
+		bs.extend_from_slice(&tail);
+		let mut bs2 = vec![7u8; 4800];
+		bs2.push(1);
+		bs2.extend_from_slice(&tail);
+		bs2.push(5);
+		macro_rules! one {
+			($label:expr, $t:ty, $bs:expr, $n:expr) => {{
+				let b = &$bs;
+				let (_s, problems) = observe(|| <$t>::decode(&mut &b[..]), if ok { $n } else { 0 });
+				for p in problems.into_iter().take(3) {
+					ctx.oracle_fail("C10", format!("{} ({}): {}", $label, what, p));
+				}
+				ctx.count("ledger:cases", 1);
+			}};
+		}
+		one!("(Tracked, [u8; 5000], Tracked, Tracked)", Big, bs, 3);
+		one!("Box<(Tracked, [u8; 5000], Tracked, Tracked)>", Box<Big>, bs, 3);
+		one!("Rc<(Tracked, [u8; 5000], Tracked, Tracked)>", Rc<Big>, bs, 3);
+		one!("Arc<(Tracked, [u8; 5000], Tracked, Tracked)>", Arc<Big>, bs, 3);
+		one!("Box<([u64; 600], Tracked, (Tracked, Tracked), u8)>", Box<Big2>, bs2, 3);
+		let two = [bs.clone(), bs.clone()].concat();
+		one!("Box<[(Tracked, [u8; 5000], Tracked, Tracked); 2]>", Box<[Big; 2]>, two, 6);
+	}
+}
+
 /// Shared holders of payloads above the 16 KiB preallocation size, cut or damaged part-way.
 fn big_shared_cases(ctx: &mut Ctx) {
 	for (what, bad_at, tail) in [("malformed element", 2000usize, Some(0xffu8)), ("input ends", 2050, None), ("element decoder panics", 1, Some(0xfe)), ("element decoder panics late", 2099, Some(0xfe)), ("complete", 2100, None)] {
@@ -614,6 +647,7 @@ pub fn ledger_stream(ctx: &mut Ctx) {
 	later_marker_cases(ctx);
 	skipped_default_cases(ctx);
 	big_shared_cases(ctx);
+	big_tuple_cases(ctx);
 	// Option / Result / tuples / derived types: fixed shapes, failure at every element position
 	grid!(ctx, "Option<Tracked> (Some)", None, 1, &[1], |bs: &[u8]| <Option<Tracked>>::decode(&mut &bs[..]));
 	grid!(ctx, "Result<Tracked, Tracked> (Err)", None, 1, &[1], |bs: &[u8]| <Result<Tracked, Tracked>>::decode(&mut &bs[..]));
